@@ -59,6 +59,18 @@ type seqCall struct {
 
 var errSentinel = errors.New("verif error")
 
+// progress: units of work completed so far (rounds, operations, sequential cases).  Printed to stderr once a second
+// ("PROGRESS n") so that the watchdog of the check can tell a slow machine (the number grows) from a hang (it does not).
+var progress int64
+
+func startProgress() {
+	go func() {
+		for range time.Tick(time.Second) {
+			fmt.Fprintf(os.Stderr, "PROGRESS %d\n", atomic.LoadInt64(&progress))
+		}
+	}()
+}
+
 func errOf(v int64) error {
 	if v == 0 {
 		return nil
@@ -151,6 +163,7 @@ func concSeq(req concReq) int {
 	}
 	var out []res
 	for _, cs := range req.Cases {
+		atomic.AddInt64(&progress, 1)
 		resetAll()
 		var r res
 		for _, c := range cs {
@@ -218,6 +231,7 @@ func concRounds(req concReq) int {
 	failedRounds := 0
 	t0 := time.Now()
 	for r := int64(1); r <= int64(rounds); r++ {
+		atomic.AddInt64(&progress, 1)
 		metrics.Reset()
 		monitor.Reset()
 		var sum, nerr, stm int64
@@ -296,7 +310,7 @@ func concRounds(req concReq) int {
 // ---------------------------------------------------------------------------------------------
 // mix
 
-var mixOps = []string{"tokenize", "parse", "parse_ctx", "parse_hold", "recovery", "format", "extract", "scan", "lint", "suggest", "span", "metrics", "config"}
+var mixOps = []string{"tokenize", "parse", "parse_ctx", "parse_hold", "recovery", "format", "extract", "scan", "lint", "suggest", "span", "span_zero", "metrics", "config"}
 
 // per-goroutine memory of the "metrics" operation (element g is only touched by goroutine g)
 var lastSeenOps, lastSeenBytes []int64
@@ -332,6 +346,7 @@ func newLinter() *linter.Linter {
 
 // runOp executes one public operation and returns its canonical, comparable result
 func runOp(op string, sql string, gid int) (res string) {
+	defer atomic.AddInt64(&progress, 1)
 	defer func() {
 		if r := recover(); r != nil {
 			res = fmt.Sprintf("PANIC %v", r)
@@ -466,6 +481,17 @@ func runOp(op string, sql string, gid int) (res string) {
 		sp := models.Span{Start: models.Location{Line: gid + 1, Column: len(sql)}, End: models.Location{Line: gid + 2, Column: 1}}
 		ast.SetSpan(node, sp)
 		if ast.GetSpan(node) != sp {
+			return "span lost"
+		}
+		return "span ok"
+	case "span_zero":
+		// the zero values of the arguments: the empty span (a path of its own in an implementation that treats
+		// "no span" specially); afterwards the node has the empty span and another node can still be set and read
+		node, other := &ast.SelectStatement{}, &ast.SelectStatement{}
+		ast.SetSpan(node, models.Span{})
+		sp := models.Span{Start: models.Location{Line: gid + 1, Column: len(sql) + 1}, End: models.Location{Line: gid + 3, Column: 1}}
+		ast.SetSpan(other, sp)
+		if ast.GetSpan(node) != (models.Span{}) || ast.GetSpan(other) != sp {
 			return "span lost"
 		}
 		return "span ok"
@@ -641,6 +667,7 @@ func init() {
 			fmt.Fprintln(os.Stderr, "bad request:", err)
 			return 2
 		}
+		startProgress()
 		switch req.Mode {
 		case "seq":
 			return concSeq(req)
